@@ -90,7 +90,19 @@ impl Corpus {
     pub fn load() -> Result<Corpus, String> {
         let spec = Spec::load()?;
         let tracks = bind::track_codes();
-        let mixed_pool: Vec<char> = "éþÿßÀñ¿ěščřžłőЖяюбΩλώάışğİūņķģあア美日本語ﾏ한국어中文測試简体".chars().collect();
+        // the second line holds double-byte characters with awkward bytes: trail byte '^' 0x5E / '|' 0x7C / '\\' 0x5C / '@',
+        // first and last lead bytes, CP932 / GBK / Big5 extension rows (lead bytes 0xF9..0xFE); found with CPython's
+        // codecs, kept only if the library itself round-trips the single character (the tables are C10's business)
+        let candidates = "éþÿßÀñ¿ěščřžłőЖяюбΩλώάışğİūņķģあア美日本語ﾏ한국어中文測試简体\
+                          　、―／～－÷□∧≒真漾濬濘烟鍈增薰タ丂丄乗乛乣亅亐仩伬佮恀燶燸爘癪繞繺繼纜衈郳郶鄚館鶂鷢麁鼆齹갂갵걖걽겴곟品行形禍爻﹏）﹄貢錐餐餞嚐胣赨趑輋禭龤";
+        let mixed_pool: Vec<char> = candidates
+            .chars()
+            .filter(|c| !c.is_whitespace() || *c == '　')
+            .filter(|c| {
+                let s = c.to_string();
+                guarded(|| insim_core::string::codepages::to_lossy_string(&to_lossy_bytes(&s)).to_string() == s).unwrap_or(false)
+            })
+            .collect();
         Ok(Corpus { spec, tracks, mixed_pool })
     }
 
